@@ -389,6 +389,9 @@ func (x *fnCtx) applyContract(st *State, fr *Frame, in ssa.Instruction, con *Con
 		if !cl.appliesTo(x.eng.prop) {
 			continue
 		}
+		if !cl.appliesTo(x.eng.prop) {
+			continue
+		}
 		g := x.evalSpecBool(env, cl.Expr)
 		if x.eng.cfg.Layers["contract"] {
 			x.addVC(st, short, "pre", x.ord(fr, in), fmt.Sprintf("%s.%d", con.Func, cl.Ord), g, fmt.Sprintf("precondition of %s: %s", con.Func, cl.Text), x.eng.posStr(in.Pos()))
@@ -450,6 +453,9 @@ func (x *fnCtx) applyContract(st *State, fr *Frame, in ssa.Instruction, con *Con
 	}
 	env2 := &specEnv{x: x, st: st, heap: st.heap, old: oldHeap, names: names, fr: fr, pkg: con.Pkg}
 	for _, cl := range con.ClausesOf("ensures") {
+		if !cl.appliesTo(x.eng.prop) {
+			continue
+		}
 		func() {
 			// an ensures that mentions the callee's own ghost bindings is not usable by callers
 			defer func() {
@@ -754,6 +760,29 @@ func (x *fnCtx) recordTrace(st *State, name string, c *ssa.CallCommon, fnv *Val,
 			}
 		}
 		st.trace = append(st.trace, Event{Name: ev, Args: args, Res: res})
+		if td.As != "" && res != nil && td.When != nil {
+			// conditional bind: the new value when the condition holds, the previous one otherwise
+			names := map[string]nameBind{}
+			for k, v := range st.ghost {
+				if !strings.HasPrefix(k, "$") {
+					names[k] = nameBind{v: v}
+				}
+			}
+			for i, a := range args {
+				names[fmt.Sprintf("$%d", i)] = nameBind{v: a}
+			}
+			env := &specEnv{x: x, st: st, heap: st.heap, old: st.heap, names: names}
+			cond, ok := x.tryEval(env, td.When)
+			if !ok {
+				x.fail("trace %s: cannot evaluate the bind condition", td.Pattern)
+			}
+			old, had := st.ghost[td.As]
+			if !had {
+				old = zeroVal(res.T)
+			}
+			st.ghost[td.As] = iteVal(cond, res, old)
+			return
+		}
 		if td.As != "" && res != nil {
 			if x.bindOutsideLoops(td) {
 				// a binding made outside every loop is one value for the whole call: name it by a
@@ -842,4 +871,19 @@ func (x *fnCtx) bindOutsideLoops(td *TraceDecl) bool {
 	res := okAll && n == 1
 	x.bindOutside[td] = res
 	return res
+}
+
+func iteVal(c *Term, a, b *Val) *Val {
+	if a.Tup != nil {
+		out := &Val{T: a.T}
+		for i := range a.Tup {
+			out.Tup = append(out.Tup, iteVal(c, a.Tup[i], b.Tup[i]))
+		}
+		return out
+	}
+	out := &Val{T: a.T}
+	for i := range a.L {
+		out.L = append(out.L, Ite(c, a.L[i], b.L[i]))
+	}
+	return out
 }
